@@ -17,11 +17,18 @@
     * TOTAL       `expand_total`    — a receiver that reads as a value has a result for all
                                       sufficiently large `k` (`none` only ever means "descend further").
 
+  `Shift` and `Normalize` have the same shape and the same three theorems; `Complement` allocates
+  nothing and SHARES the receiver's slices (`complement_shares`).  `asComplete` itself refines
+  `Loc.asComplete` on EVERY readable argument and changes nothing in the heap but partial markers
+  (`asComplete_refines`, `asComplete_only_erases`).
+
   The call site of `asComplete` (`gts.Slice`, sequence.go:276-279) is the program `sliceLocMem` =
-  `Expand`, `Expand`, `asComplete`; `sliceLoc_frame` / `sliceLoc_refines` replace the stand-in
-  `allocLoc` of `C11.asComplete_fresh_frame`.  Helper lemmas: Gts/Lemmas/MemLoc*.lean.
+  `Expand`, `Expand`, `asComplete`; `sliceLoc_frame` / `sliceLoc_refines_feature` / `sliceLoc_total`
+  replace the stand-in `allocLoc` of `C11.asComplete_fresh_frame`: nothing about `Slice` rests on
+  the oracle `expand-fresh` any more.  Helper lemmas: Gts/Lemmas/MemLoc*.lean.
 -/
 import Gts.Lemmas.MemLocTotal
+import Gts.Lemmas.MemLocComplete
 namespace Gts.C11
 open Gts Gts.Mem Gts.Mem.Heap
 
@@ -183,6 +190,37 @@ example : Reads exMem.2 exLoc.complement (complementMem exMem.1) ∧
     ¬ RefsAbove exMem.2.length (complementMem exMem.1) :=
   ⟨(complement_shares (allocLoc_reads exLoc _).2).1, by show ¬ ((4 : Nat) ≤ 3); decide⟩
 
+/-! ### `asComplete` itself -/
+
+/-- **`asComplete` on memory is `Loc.asComplete` on values** — for EVERY readable argument, fresh or
+not, whatever it shares with other values or with itself (two windows over one array, a part that
+occurs twice): with fuel at least the nesting depth, the value returned reads as `l.asComplete` in
+the heap `asCompleteMem` leaves, and that heap is the old one with some cells COMPLETED
+(`Erased`: same arrays, same lengths, every cell as it was or with its partial markers erased). -/
+theorem asComplete_refines {k : Nat} {h : LHeap} {m : MLoc} {l : Loc} (hk : mdepth l ≤ k)
+    (hl : Reads h l m) :
+    Reads (asCompleteMem k h m).2 l.asComplete (asCompleteMem k h m).1 ∧
+    Erased h (asCompleteMem k h m).2 :=
+  have sp := asCompleteMem_spec k l h m hk hl
+  ⟨sp.2.1, sp.1⟩
+
+/-- … so what its impurity can do to ANY other value that was readable — the feature's own
+location, had it been passed — is to erase partial markers: the value still reads, as `l'` with
+some of its contiguous parts completed (`Er`), in particular with the same completion. -/
+theorem asComplete_only_erases {k : Nat} {h : LHeap} {m : MLoc} {l : Loc} (hk : mdepth l ≤ k)
+    (hl : Reads h l m) {l' : Loc} {m' : MLoc} (hl' : Reads h l' m') :
+    ∃ l'', Reads (asCompleteMem k h m).2 l'' m' ∧ Er l' l'' ∧ l''.asComplete = l'.asComplete := by
+  obtain ⟨l'', h1, h2⟩ := Reads.erased (asCompleteMem_spec k l h m hk hl).1 l' m' m' hl' (CellE.refl _)
+  exact ⟨l'', h1, h2, Er.asComplete_eq _ _ h2⟩
+
+/-- non-vacuity: the argument of `C11.asComplete_impure` (`join(<2..3, order(8..>9, 6))`, depth 3) is
+readable, and a value with a part that occurs TWICE (one slice, two cells) is handled as well -/
+example : mdepth (.joined [.ranged 1 3 true false, .ordered [.ranged 7 9 false true, .point 5]]) ≤ 3 ∧
+    Reads [[.leaf (.ranged 7 9 false true)], [.ordered ⟨0, 0, 1, 1⟩, .ordered ⟨0, 0, 1, 1⟩]]
+      (.joined [.ordered [.ranged 7 9 false true], .ordered [.ranged 7 9 false true]]) (.joined ⟨1, 0, 2, 2⟩) := by
+  refine ⟨by decide, ?_⟩
+  simp [Reads, ReadsList, WF, Heap.read, Heap.get]
+
 /-! ### the call site of `asComplete` -/
 
 /-- **FRAME at the only call site of `asComplete`** (`gts.Slice`, sequence.go:276-279), with the
@@ -243,10 +281,34 @@ theorem sliceLoc_total (g : Grow) (L start end_ : Int) (source : Bool) {h : LHea
   rw [expandMem_le g _ _ k2 k (by omega) r1.2 r1.1 r2 e2]
   exact ⟨_, rfl⟩
 
+/-- **REFINEMENT at the call site for every feature**, `source` or not: the location the program
+leaves reads as the location `Mem.sliceLoc` — the table-level model that `slice_refines` /
+`Seq.sliceFwd` use — gives the feature.  (For a `source` the fuel has to cover the depth of the
+expanded location, because `asCompleteMem` stops silently when it runs out; `sliceLoc_total` says a
+sufficient fuel exists.) -/
+theorem sliceLoc_refines_feature (g : Grow) (k : Nat) (L start end_ : Int) (f : Feature) {h : LHeap}
+    {m : MLoc} (hl : Reads h f.loc m) {r : MLoc × LHeap}
+    (he : sliceLocMem g k L start end_ (decide (f.key = "source")) h m = some r)
+    (hk : mdepth ((f.loc.expand end_ (end_ - L)).expand 0 (-start)) ≤ k) :
+    Reads r.2 (Mem.sliceLoc L start end_ f).loc r.1 := by
+  unfold sliceLocMem at he
+  obtain ⟨r1, h1, h2⟩ := Option.bind_eq_some_iff.1 he
+  obtain ⟨r2, h3, h4⟩ := Option.bind_eq_some_iff.1 h2
+  have hr2 := expandMem_refines g _ _ k _ _ _ _ h3 (expandMem_refines g _ _ k _ _ _ _ h1 hl)
+  simp only [Option.some.injEq] at h4
+  subst h4
+  by_cases hs : f.key = "source"
+  · simp only [hs, decide_true, if_true, Mem.sliceLoc]
+    exact (asComplete_refines hk hr2).1
+  · simp only [hs, decide_false, Mem.sliceLoc, if_false, Bool.false_eq_true]
+    exact hr2
+
 /-- non-vacuity: the `source`-style location `join(<2..3, order(8..>9, 6), …)` of `exMem`, window
-`[2, 18)` of a sequence of length 24: the program has a result, the result is complete at every
-depth and is what `Mem.sliceLoc` computes, and the feature's own location still reads `exLoc` -/
+`[2, 18)` of a sequence of length 24: fuel 6 covers the depth of the expanded location, the program
+has a result, the result is complete at every depth and is what `Mem.sliceLoc` computes, and the
+feature's own location still reads `exLoc` -/
 example :
+    mdepth ((exLoc.expand 18 (18 - 24)).expand 0 (-2)) ≤ 6 ∧
     ((sliceLocMem (fun _ _ => 0) 6 24 2 18 true exMem.2 exMem.1).map fun r =>
       (readLoc 8 r.2 r.1).beq (Mem.sliceLoc 24 2 18 ⟨"source", exLoc, []⟩).loc &&
       (readLoc 8 r.2 exMem.1).beq exLoc) = some true := by decide +kernel
